@@ -181,13 +181,20 @@ class World:
             # re-basing goes through Components.__bases__, which maps the
             # component bases onto both underlying registries
             from zope.interface.registry import Components
+            # 'cbases': the Components layer of MC_RegistryComp (registry
+            # identities beyond the components are handed out when a
+            # constructor is re-run); otherwise one component per registry
+            cb = job.get('cbases') or job['rbases']
+            self.attr = job.get('comp_attr', 'adapters')
             self.comp = {i + 1: Components('c%d' % (i + 1))
-                         for i in range(len(job['rbases']))}
-            for i, b in enumerate(job['rbases']):
+                         for i in range(len(cb))}
+            for i, b in enumerate(cb):
                 if b:
                     self.comp[i + 1].__bases__ = tuple(self.comp[m]
                                                        for m in b)
-            self.reg = {g: c.adapters for g, c in self.comp.items()}
+            self.reg = {g: getattr(c, self.attr)
+                        for g, c in self.comp.items()}
+            self.owner = {g: g for g in self.comp}
         else:
             for i, b in enumerate(job['rbases']):
                 self.reg[i + 1] = cls()
@@ -273,6 +280,16 @@ class World:
             else:
                 self.reg[act['g']].__bases__ = tuple(self.reg[m]
                                                      for m in act['nb'])
+        elif op == 'compSetBases':
+            self.comp[act['c']].__bases__ = tuple(self.comp[m]
+                                                  for m in act['nb'])
+        elif op == 'compReinit':
+            c = self.comp[act['c']]
+            # the idiom for resetting a registry: run the constructor again
+            c.__init__('c%d' % act['c'],
+                       tuple(self.comp[m] for m in act['nb']))
+            self.reg[act['g']] = getattr(c, self.attr)
+            self.owner[act['g']] = act['c']
         elif op == 'setSpecBases':
             self.spec[act['s']].__bases__ = tuple(self.spec[m]
                                                   for m in act['nb'])
@@ -298,10 +315,24 @@ class World:
             return x.vid
         return 'foreign:%r' % (x,)
 
-    def lookup_variants(self, req):
+    def comp_of(self, g):
+        """the component that currently owns registry g as .adapters"""
+        if self.comp is None or self.attr != 'adapters':
+            return None
+        c = self.comp.get(self.owner.get(g))
+        if c is not None and c.adapters is self.reg[g]:
+            return c
+        return None
+
+    def lookup_variants(self, req, g=None):
         vs = ['lookup', 'lookup_list', 'lookup_lazy', 'multi']
         if len(req) == 1:
             vs += ['lookup1', 'hook', 'queryAdapter']
+        if g is not None and self.comp_of(g) is not None:
+            # the Components-level entry points
+            vs += ['comp_multi']
+            if len(req) == 1:
+                vs += ['comp_queryAdapter']
         if req and all(s in self.subinst for s in req):
             # the looked-up objects are super() proxies: the factory must be
             # called with the underlying objects
@@ -346,7 +377,11 @@ class World:
                     for s in req]
         else:
             args = objs
-        if via in ('hook', 'queryAdapter'):
+        if via == 'comp_queryAdapter':
+            res = self.comp_of(g).queryAdapter(args[0], P, name, *dargs)
+        elif via == 'comp_multi':
+            res = self.comp_of(g).queryMultiAdapter(args, P, name, *dargs)
+        elif via in ('hook', 'queryAdapter'):
             if via == 'hook':
                 res = r.adapter_hook(P, args[0], name, *dargs)
             else:
@@ -366,7 +401,7 @@ class World:
     def q_lookup(self, g, req, p, name, adm, ctx, primary=False,
                  variants=None):
         global evaluations
-        vs = variants or self.lookup_variants(req)
+        vs = variants or self.lookup_variants(req, g)
         if primary and not variants:
             vs = [rnd.choice(vs)]
         for via in vs:
@@ -381,6 +416,7 @@ class World:
                 ok = got in adm
                 if ok and got != NONE and via in (
                         'hook', 'queryAdapter', 'multi', 'hook_super',
+                        'comp_multi', 'comp_queryAdapter',
                         'queryAdapter_super', 'multi_super') \
                         and self.val(got).ret_none:
                     ok = False
